@@ -24,6 +24,8 @@ N = 1024) -> threshold 1e-11; equiangular nodes are symmetric to 4e-16 and their
 1.2e-14 at 64 nodes -> thresholds 1e-13 / 1e-10; sec2_lat next to the poles amplifies the node asymmetry by
 2 / cos^2(lat) (3e-13 at 32 equiangular nodes) -> threshold 1e-10.
 """
+import os
+
 import numpy as np
 
 import common
@@ -71,6 +73,8 @@ class _Env:
     self.jnp, self.pe, self.sh, self.sc, self.cs, self.scales = (
         jnp, primitive_equations, spherical_harmonic, sigma_coordinates, coordinate_systems, scales)
     self.ti, self.sw, self.al, self.fourier = time_integration, shallow_water, associated_legendre, fourier
+    from dinosaur import filtering
+    self.filtering = filtering
     pe, ti = primitive_equations, time_integration
     self.CL = dict(dry=pe.PrimitiveEquations, time=pe.PrimitiveEquationsWithTime, moist=pe.MoistPrimitiveEquations,
                    cloud=pe.MoistPrimitiveEquationsWithCloudMoisture)
@@ -397,6 +401,27 @@ def _hypotheses(ctx, E):
               rec('clip', _rel(g.clip_wavenumbers(J_(S.modal(xx))), S.modal(g.clip_wavenumbers(J_(xx)))),
                   dict(inp, spectrum=lab))
             rec('toModal', _rel(g.to_modal(J_(S.nodal(z))), S.modal(g.to_modal(J_(z)))), inp)
+            # the filters of filtering.py are multipliers by a function of l: the hypothesis `phi o rho_M = rho_M o phi`
+            # of C10.spectral_filter_conjugated (which discharges HistRel / lfRel for them), on the real filter functions
+            if ms[1] >= 2:
+              for fname, flt in (('exponential', E.filtering.exponential_filter(g, attenuation=float(rng.uniform(1, 16)),
+                                                                               order=int(rng.choice([1, 2, 6])),
+                                                                               cutoff=float(rng.choice([0.0, 0.4])))),
+                                 ('diffusion', E.filtering.horizontal_diffusion_filter(
+                                     g, scale=float(rng.uniform(1e-3, 1e-1)), order=int(rng.choice([1, 2]))))):
+                for xx, lab in ((x, 'any'), (xm, 'masked')):
+                  rec('filter-commutes', _rel(flt(J_(S.modal(xx))), S.modal(np.asarray(flt(J_(xx))))),
+                      dict(inp, spectrum=lab, filter=fname))
+            # `hdiv` (rho_N (a / b) = rho_N a / rho_N b: hypothesis of every moist / cloud statement and of
+            # pe_trajectory_equivariant) and the algebra-homomorphism part of `Sym.rhoN` (products, the constant one):
+            # roll and flip permute the nodes, so these hold EXACTLY (bit for bit), also where b has a zero
+            z2 = rng.standard_normal(ns)
+            z2.flat[int(rng.integers(0, z2.size))] = 0.0
+            with np.errstate(all='ignore'):
+              qa, qb = S.nodal(z / z2), S.nodal(z) / S.nodal(z2)
+            rec('hdiv', 0.0 if np.array_equal(qa, qb, equal_nan=True) else 1.0, inp, 0.0)
+            rec('rhoN-mul', 0.0 if np.array_equal(S.nodal(z * z2), S.nodal(z) * S.nodal(z2)) else 1.0, inp, 0.0)
+            rec('rhoN-one', 0.0 if np.array_equal(S.nodal(np.ones(ns)), np.ones(ns)) else 1.0, inp, 0.0)
             rec('cosLat', _rel(S.nodal(cosl), cosl), inp, 1e-13)
             rec('sec2Lat', _rel(S.nodal(sec2), sec2), inp, 1e-10)
             rec('sinLat', _rel(S.nodal(sinl), S.eps * sinl), inp, 1e-13)
@@ -496,7 +521,13 @@ def _compare(ctx, key, what, inp, ref, got, S, worst):
       if not (np.isfinite(a).all() == np.isfinite(b).all()):
         ctx.fail(key, f'{what}: leaf {k}: finiteness differs between the original and the transformed run', inp)
       else:
+        # never skipped silently (review B, C10 finding 4): the probes run 3 (quick) / 8 (thorough) steps of size
+        # dt <= 0.01 from O(1) non-dimensional states, so overflow is impossible and a non-finite REFERENCE run can
+        # only come from a NaN/inf produced by the code: it is reported, there is nothing to compare
         ctx.dist['probe-nonfinite-both'] += 1
+        ctx.fail(key + ':nonfinite-reference', f'{what}: leaf {k} is non-finite in BOTH the original and the '
+                 'transformed run (no comparison possible; the reference run must stay finite for these step counts)',
+                 inp)
       continue
     scale = max(float(np.abs(a).max(initial=0.0)), float(np.abs(b).max(initial=0.0)), FLOOR * allscale)
     err = float(np.abs(a - b).max(initial=0.0))
@@ -739,7 +770,9 @@ LEAN_FILES = ['Dino/Symmetry.lean', 'Dino/SymmetryDrv.lean'] + [
 
 def run(ctx: common.Ctx):
   E = _Env()
-  ctx.lean('DinoProofs.Properties.C10', 'C10.txt', extra_files=LEAN_FILES)
+  extra = LEAN_FILES + [f for f in ['DinoProofs/Lemmas/SymmetryFilter.lean']
+                        if os.path.exists(os.path.join(common.LEAN, f))]
+  ctx.lean('DinoProofs.Properties.C10', 'C10.txt', extra_files=extra)
   ctx.assumptions += [
       'T10.1 is about the abstract models Dino.Dynamics / Dino.DynamicsSW / Dino.Imex / Dino.Invariants; their '
       'correspondence with the real classes is checked by C04, C05, C06, C11',
@@ -748,7 +781,19 @@ def run(ctx: common.Ctx):
       'instantiated with the list model inside Lean',
       'cos / sin tables and the Legendre nodes / weights are external: TrigTable, SymNodes, SymWeights are hypotheses '
       'of T10.2 / T10.3, validated on every run on the arrays the real Grid computed',
-      'float rounding is outside the theorems (thresholds 1e-9 / 1e-10, measured rounding <= 2e-13)']
+      'float rounding is outside the theorems (thresholds 1e-9 / 1e-10, measured rounding <= 2e-13)',
+      'padding: the fast-basis statements are proved with padding of the axes the symmetry does NOT act on (rotation: '
+      'longitude-node padding 0; mirror: latitude-node padding 0): np.roll / a flip of a padded nodal axis is not the '
+      'symmetry; the probes use unpadded nodal layouts of the transformed axis',
+      'hdiv (rho_N (a / b) = rho_N a / rho_N b) and the algebra-homomorphism part of rho_N are hypotheses of every '
+      'moist / cloud statement and of pe_trajectory_equivariant: validated exactly (bit for bit) for roll and flip in '
+      'section (b), keys hyp:hdiv, hyp:rhoN-mul, hyp:rhoN-one',
+      'filters along trajectories: HistRel / lfRel ask for conjugated filters; for leaf-wise multipliers commuting with '
+      'rho_M this is proved (C10.spectral_filter_conjugated, pe_trajectory_equivariant_spectral_filters); that the real '
+      'exponential / diffusion filters commute with rho_M is validated in section (b) (hyp:filter-commutes) and proved '
+      'for the list model only (rot_lMul_commutes, mirror_dDlon_lMul_commute)',
+      'Equivariant.lproj is a model device (projection on one total wavenumber, used by implicit_inverse) with no '
+      'real counterpart: NOT validated on the real Grid; covered by the list-model rot_lMul_commutes']
   _corr(ctx, E)
   _hypotheses(ctx, E)
   worst = [0.0]
